@@ -113,6 +113,17 @@ def gen_cases(tier, seed):
         for tail in ["", " 5", "5", "\n5", " \n 5", "+ a", "\n\n5", ".5", "\"x\""]:
             out.append(("multiline", [ord(c) for c in lit + tail]))
             out.append(("multiline", [ord(c) for c in "a " + lit + tail]))
+    # quoted literals: q^n body q^n (+ tail) for both quote kinds, n = 1..4, every body of length <= 4 over
+    # {a, the quote, backslash, space}: where the closing run is found (C13_char_list_shape / C13_byte_list_shape)
+    for q in ('"', "'"):
+        alpha = ["a", q, "\\", " "]
+        bodies = [""]
+        for L in (1, 2, 3, 4):
+            bodies += ["".join(t) for t in itertools.product(alpha, repeat=L)]
+        for n in (1, 2, 3, 4):
+            for b in bodies:
+                for tail in ("", "a", q):
+                    out.append(("literal-shapes", [ord(c) for c in q * n + b + q * n + tail]))
     # seeded random longer strings: character soup, and mostly-valid token sequences
     n_rand = 200000 if tier == "thorough" else 20000
     weights_alpha = full
@@ -218,6 +229,27 @@ def oracle(cps, toks):
                     bad.append(("longest-match", "token %d %r but the longer spelling %r is a prefix of the input there" % (
                         i, show(t[1]), show(list(sp)))))
                     break
+    # quoted literals end at the FIRST closing run of the opening length (the shape C13_char_list_shape proves of
+    # the model): exactly two quotes, or q^n x body q^n with n != 2, x not a quote, every quote run inside body
+    # shorter than n and body not ending in a quote
+    for i, t in enumerate(toks):
+        if t[0] in ("CharList", "ByteList"):
+            q = 34 if t[0] == "CharList" else 39
+            tx = t[1]
+            ok_shape = tx == [q, q]
+            if not ok_shape:
+                n = 0
+                while n < len(tx) and tx[n] == q:
+                    n += 1
+                if 1 <= n != 2 and len(tx) >= 2 * n + 1 and tx[-n:] == [q] * n:
+                    body = tx[n + 1:len(tx) - n]
+                    run, longest = 0, 0
+                    for c in body:
+                        run = run + 1 if c == q else 0
+                        longest = max(longest, run)
+                    ok_shape = longest < n and (not body or body[-1] != q)
+            if not ok_shape:
+                bad.append(("literal-shape", "token %d %s %r does not end at the first closing run of its opening quote count" % (i, t[0], show(tx))))
     # blank line: the token containing the first LF of LF LF must be a Subexpression token,
     # unless that LF belongs to a literal or a line annotation
     off = 0
